@@ -137,6 +137,7 @@ type World struct {
 
 	traceMode bool
 	lastShape string
+	InnerEvals int // evaluations made inside the state oracle of this world (evidence counter)
 
 	// prov: for every live handle object, the operation that produced it and whether its container
 	// was stored inline at that moment (facts a parent callback may capture when it is installed).
